@@ -16,6 +16,19 @@
    the copy-at-creation machine satisfies it (and, as a negative control, that it does not when a block
    may be written after it got children: LeafOnly = FALSE).
 
+   BLOCK IDENTITY.  The id of a block stands for its HASH and nothing else identifies a block.  What the header
+   says besides is an ATTRIBUTE the tree must never look at: attr[b] is the block's slot (miner + timestamp; in
+   the binding every header field except ParentHash/Height and the one field named by `kind` is a function of
+   the slot alone).  Two different blocks with the same parent and the same slot are TWINS: they agree in
+   height, parent hash, miner, time, roots, gas, ... and differ only in the content field `kind` (what an
+   equivocating or restarted miner, or two blocks built on one parent within a second, look like); blocks of
+   one slot under different parents additionally differ in ParentHash only.  No action of the machine reads
+   attr or kind - that IS the statement - so the universe simply contains twins at every position (children of
+   the stable block, deeper, with and without descendants) and every clause is checked over it.  As a negative
+   control IdentByHash = FALSE makes SetStableBlock's walk recognise "the" next stable block by its header
+   attributes (CBlock.Walk / IsSameBlock shaped): TLC must then find PruneExact violated, which shows that the
+   universe really contains the twins that matter.
+
    Values identify their writer: Val(b, a) = 16*b + a for block b >= 1; the initially persisted value
    of a is a itself, 0 means "account does not exist".  Block ids are handed out in creation order
    (n+1), block 0 is the initial stable block. *)
@@ -23,7 +36,12 @@ EXTENDS Integers, FiniteSets, Sequences, TLC
 CONSTANTS Addrs,       \* set of address indices (subset of 1..15)
           MaxBlocks, MaxWrites, MaxStable, MaxRestart, MaxReads,
           InitStable,  \* set of initially persisted states, functions [Addrs -> Nat]
-          LeafOnly     \* TRUE: the write discipline of account.Manager.Save / dpovp.go (SetBlock; Save)
+          LeafOnly,    \* TRUE: the write discipline of account.Manager.Save / dpovp.go (SetBlock; Save)
+          MaxSlots,    \* slots (miner, time) a new block may be given: 1..MaxSlots
+          CanonSlots,  \* TRUE: slots are handed out in canonical order (a slot in use or the first free one) - only the
+                       \*       equalities between slots matter, so this is a symmetry reduction of the model, not a bound
+          Kinds,       \* header fields that may carry the difference between twins (one per behaviour)
+          IdentByHash  \* TRUE: a block is identified by its hash (id) only.  FALSE: negative control
 VARIABLES parent,  \* [live block -> parent id]          CBlock.Parent (live = DOMAIN parent = UnConfirmBlocks)
           n,       \* number of blocks created so far
           stable,  \* id of the stable block               LastConfirm
@@ -31,8 +49,10 @@ VARIABLES parent,  \* [live block -> parent id]          CBlock.Parent (live = D
           view,    \* [live \cup {stable} -> [Addrs -> Nat]]  materialised per-block views (the tries)
           sv,      \* [Addrs -> Nat]                        persisted account data (disk)
           wr,      \* history: set of <<b, a>> written, b live
-          nstab, nrest, nreads
-vars == <<parent, n, stable, chain, view, sv, wr, nstab, nrest, nreads>>
+          nstab, nrest, nreads,
+          attr,    \* [live \cup {stable} -> slot]  header attributes of the blocks (0: the initial stable block's own slot)
+          kind     \* the header field in which the blocks of this behaviour carry their content difference
+vars == <<parent, n, stable, chain, view, sv, wr, nstab, nrest, nreads, attr, kind>>
 
 Val(b, a) == 16 * b + a
 Live == DOMAIN parent
@@ -43,6 +63,16 @@ RECURSIVE Height(_)
 Height(b) == IF b = stable \/ b \notin Live THEN 0 ELSE 1 + Height(parent[b])              \* height above the stable block
 Desc(b) == {c \in Live : c # b /\ b \in AncSelf(c)}                                       \* strict descendants
 IsLeaf(b) == ~\E c \in Live : parent[c] = b
+\* different blocks that agree in every header field but the content field
+Twin(c, d) == c # d /\ c \in Live /\ d \in Live /\ parent[c] = parent[d] /\ attr[c] = attr[d]
+UsedSlots == {attr[c] : c \in Views}
+FirstFree == CHOOSE s \in 1..(MaxSlots + 1) : s \notin UsedSlots /\ \A t \in 1..(s - 1) : t \in UsedSlots
+\* what SetStableBlock's walk takes for "the block x of the path to the new stable block" among the children of x's parent
+SameAs(c, x) == IF IdentByHash THEN c = x ELSE parent[c] = parent[x] /\ attr[c] = attr[x]
+\* blocks that survive SetStableBlock(b): every old root's children are walked and removed with their subtrees,
+\* except the child that is the next block of the path (IdentByHash: exactly the strict descendants of b)
+Spared(b) == {c \in Live \ AncSelf(b) : \E x \in AncSelf(b) : SameAs(c, x)}
+Keep(b) == Desc(b) \cup UNION {{c} \cup Desc(c) : c \in Spared(b)}
 Writers(b, a) == {c \in AncSelf(b) : <<c, a>> \in wr}
 \* the property's definition of what a read through b returns
 DeclView(b, a) ==
@@ -58,43 +88,47 @@ Persist(s, path) == IF path = <<>> THEN s
 Init == /\ parent = <<>> /\ n = 0 /\ stable = 0 /\ chain = {0}
         /\ sv \in InitStable /\ view = (0 :> sv) /\ wr = {}
         /\ nstab = 0 /\ nrest = 0 /\ nreads = 0
+        /\ attr = (0 :> 0) /\ kind \in Kinds
 
-\* ChainDatabase.SetBlock(hash(n+1), block{ParentHash: hash(p), Height: height(p)+1})
-AddBlock(p) == /\ p \in Views /\ n < MaxBlocks
+\* ChainDatabase.SetBlock(hash(n+1), block{ParentHash: hash(p), Height: height(p)+1, miner/time/... of slot s, content in field kind})
+AddBlock(p, s) == /\ p \in Views /\ n < MaxBlocks
+               /\ s \in 1..MaxSlots /\ (CanonSlots => s \in UsedSlots \cup {FirstFree})
+               /\ attr' = attr @@ ((n + 1) :> s)
                /\ n' = n + 1
                /\ parent' = parent @@ ((n + 1) :> p)
                /\ view' = view @@ ((n + 1) :> view[p])
-               /\ UNCHANGED <<stable, chain, sv, wr, nstab, nrest, nreads>>
+               /\ UNCHANGED <<stable, chain, sv, wr, nstab, nrest, nreads, kind>>
 \* GetActDatabase(hash(b)).Put(account{a, Val(b, a)}, height(b))
 Put(b, a) == /\ b \in Live /\ a \in Addrs /\ <<b, a>> \notin wr
              /\ LeafOnly => IsLeaf(b)
              /\ Cardinality({x \in wr : x[1] = b}) < MaxWrites
              /\ wr' = wr \cup {<<b, a>>}
              /\ view' = [view EXCEPT ![b][a] = Val(b, a)]
-             /\ UNCHANGED <<parent, n, stable, chain, sv, nstab, nrest, nreads>>
+             /\ UNCHANGED <<parent, n, stable, chain, sv, nstab, nrest, nreads, attr, kind>>
 \* GetActDatabase(hash(b)).Get(a)
 Get(b, a) == /\ b \in Views /\ a \in Addrs /\ nreads < MaxReads
              /\ nreads' = nreads + 1
-             /\ UNCHANGED <<parent, n, stable, chain, view, sv, wr, nstab, nrest>>
+             /\ UNCHANGED <<parent, n, stable, chain, view, sv, wr, nstab, nrest, attr, kind>>
 \* ChainDatabase.SetStableBlock(hash(b))
 SetStable(b) == /\ b \in Live /\ nstab < MaxStable
                 /\ nstab' = nstab + 1
                 /\ stable' = b
                 /\ chain' = chain \cup AncSelf(b)
                 /\ sv' = Persist(sv, PathTo(b))
-                /\ parent' = [c \in Desc(b) |-> parent[c]]
-                /\ view' = [c \in Desc(b) \cup {b} |-> view[c]]
-                /\ wr' = {x \in wr : x[1] \in Desc(b)}
-                /\ UNCHANGED <<n, nrest, nreads>>
+                /\ parent' = [c \in Keep(b) |-> parent[c]]
+                /\ view' = [c \in Keep(b) \cup {b} |-> view[c]]
+                /\ attr' = [c \in Keep(b) \cup {b} |-> attr[c]]
+                /\ wr' = {x \in wr : x[1] \in Keep(b)}
+                /\ UNCHANGED <<n, nrest, nreads, kind>>
 \* Close(); NewChainDataBase(same directory)
 Restart == /\ nrest < MaxRestart
            /\ nrest' = nrest + 1
            /\ parent' = <<>> /\ wr' = {}
-           /\ view' = (stable :> sv)
-           /\ UNCHANGED <<n, stable, chain, sv, nstab, nreads>>
+           /\ view' = (stable :> sv) /\ attr' = (stable :> attr[stable])
+           /\ UNCHANGED <<n, stable, chain, sv, nstab, nreads, kind>>
 \* quantifier bounds are constant sets so that TLC labels every edge with the instantiated action
 Ids == 0..MaxBlocks
-Next == \/ \E p \in Ids : AddBlock(p)
+Next == \/ \E p \in Ids, s \in 1..MaxSlots : AddBlock(p, s)
         \/ \E b \in Ids, a \in Addrs : Put(b, a)
         \/ \E b \in Ids, a \in Addrs : Get(b, a)
         \/ \E b \in Ids : SetStable(b)
@@ -102,7 +136,7 @@ Next == \/ \E p \in Ids : AddBlock(p)
 Spec == Init /\ [][Next]_vars
 
 \* ---- the clauses of C09 ----
-TypeOK == /\ Live \subseteq 1..n /\ stable \in chain /\ stable \notin Live /\ DOMAIN view = Views
+TypeOK == /\ Live \subseteq 1..n /\ stable \in chain /\ stable \notin Live /\ DOMAIN view = Views /\ DOMAIN attr = Views
           /\ \A b \in Live : parent[b] \in Views
 \* a read through b returns the nearest ancestor-or-self write, else the persisted value
 ViewIsNearestWrite == \A b \in Views, a \in Addrs : view[b][a] = DeclView(b, a)
@@ -122,4 +156,9 @@ WriteLocalStep == \A b \in Live, a \in Addrs : (wr' = wr \cup {<<b, a>>} /\ wr' 
                      \A c \in Views \ {b}, x \in Addrs : view'[c][x] = view[c][x]
 WriteLocal == [][WriteLocalStep]_vars
 ReadPure == [][nreads' # nreads => UNCHANGED <<parent, stable, chain, view, sv, wr>>]_vars
+\* the header attributes of a block never change and play no part in which blocks exist: a twin of the new stable
+\* block (or of one of its ancestors) goes like any other non-descendant, twins among the descendants both stay
+AttrInert == [][/\ kind' = kind
+                /\ \A b \in Views \cap DOMAIN attr' : attr'[b] = attr[b]
+                /\ \A b \in Live : stable' = b => \A x \in AncSelf(b), c \in Live : Twin(x, c) => c \notin DOMAIN parent']_vars
 ====
